@@ -45,6 +45,14 @@ pub fn corpus() -> Vec<(&'static str, IncCfg, Option<(i64, i64)>, Vec<Op>)> {
             Op::Withdraw { sender: 1 }, Op::Withdraw { sender: 1 }, Op::Withdraw { sender: 2 },
         ]));
     }
+    // one address with 12 closed positions (12 different durations): a single Withdraw returns all of them
+    let c = cfg_base(3, 0);
+    let mut many: Vec<Op> = vec![];
+    for k in 0..12u64 { many.push(pos(&c, true, 1, 100 + k as u128, 86_400 + k, None)); }
+    many.push(pos(&c, true, 2, 999, 86_400, None));
+    for k in 0..12u64 { many.push(Op::ClosePosition { sender: 1, dur: 86_400 + k, now: START_TIME + 10 + k }); }
+    many.extend(vec![Op::Withdraw { sender: 1 }, Op::Withdraw { sender: 1 }, Op::Withdraw { sender: 2 }]);
+    v.push(("twelve_closed_positions", c.clone(), None, many));
     // the same with a cw20 LP token, allowance larger than the amount, wrong funds
     let c = cfg_base(10, 1);
     v.push(("cw20_lp_allowances", c.clone(), None, vec![
